@@ -61,6 +61,13 @@ def run_one(pid, tier, progs):
         return 2
     try:
         mod.run(ctx, progs)
+        # thorough tier: rules that read code the `vectors` / `zstd` features change are repeated on that configuration
+        if tier == "thorough" and getattr(mod, "THOROUGH_FEATURES", None):
+            ctx.config = "features"
+            Pf = progs.get("features")
+            for name in mod.THOROUGH_FEATURES:
+                getattr(mod, name)(ctx, Pf)
+            ctx.config = "default"
     except Exception as e:  # fail closed: an analysis crash is not a pass
         traceback.print_exc()
         ctx.ob("engine", "engine:exception", False, "analysis raised %s: %s" % (type(e).__name__, e))
